@@ -1,72 +1,20 @@
-"""Discharge obligations: z3 (python API) first, /usr/bin/cvc5 --strings-exp on z3's unknowns. 16-process fork pool."""
+"""Discharge obligations out of process: every obligation is printed as SMT-LIB 2 and given to a portfolio of
+solver processes with hard timeouts (z3 5.1 CLI, z3 5.1 e-matching only, z3 4.8.12, cvc5).  `unsat` from any back
+end discharges; `sat` refutes; anything else is undecided.  A thread pool runs up to 16 solver processes."""
 from __future__ import annotations
 
-import multiprocessing as mp
+import concurrent.futures as cf
 import os
+import shutil
 import subprocess
 import tempfile
 import time
 
 import z3
 
-_OBLS = []
-_PROBES = {}
-_TIMEOUT_MS = 10000
-
-
-def _val_to_py(m, t):
-    try:
-        v = m.eval(t, model_completion=True)
-        return str(v)
-    except Exception as e:  # noqa: BLE001
-        return f"<eval failed: {e}>"
-
-
-def _solve_one(i):
-    ob = _OBLS[i]
-    t0 = time.time()
-    # stage 1: quantifier-free hypotheses only (sound: fewer assumptions); cheap and robust
-    qf = [c for c in ob.pc if not _has_quant(c)]
-    if len(qf) != len(ob.pc):
-        s1 = z3.Solver()
-        s1.set("timeout", max(1000, _TIMEOUT_MS // 4))
-        for c in qf:
-            s1.add(c)
-        s1.add(z3.Not(ob.goal))
-        try:
-            if s1.check() == z3.unsat:
-                return i, "unsat", "z3", time.time() - t0, None, None
-        except z3.Z3Exception:
-            pass
-    s = z3.Solver()
-    s.set("timeout", _TIMEOUT_MS)
-    for c in ob.pc:
-        s.add(c)
-    s.add(z3.Not(ob.goal))
-    try:
-        r = s.check()
-    except z3.Z3Exception as e:
-        return i, "unknown", "z3", time.time() - t0, None, f"z3 exception: {e}"
-    dt = time.time() - t0
-    if r == z3.unsat:
-        return i, "unsat", "z3", dt, None, None
-    if r == z3.sat:
-        m = s.model()
-        probes = {k: _val_to_py(m, t) for k, t in _PROBES.get(i, {}).items()}
-        return i, "sat", "z3", dt, probes, str(m)[:4000]
-    reason = s.reason_unknown()
-    # second back end
-    try:
-        smt = s.to_smt2()
-        r2, out2 = _cvc5(smt, max(5, _TIMEOUT_MS // 1000))
-        if r2 == "unsat":
-            return i, "unsat", "cvc5", time.time() - t0, None, None
-        if r2 == "sat":
-            # cvc5 model is not mapped back to probes; report as sat with raw output
-            return i, "sat", "cvc5", time.time() - t0, {}, out2[:4000]
-        return i, "unknown", "z3+cvc5", time.time() - t0, None, f"z3: {reason}; cvc5: {out2[:200]}"
-    except Exception as e:  # noqa: BLE001
-        return i, "unknown", "z3", time.time() - t0, None, f"z3: {reason}; cvc5 not run: {e}"
+Z3NEW = shutil.which("z3-new") or "/usr/local/bin/z3-new"
+Z3OLD = "/usr/bin/z3"
+CVC5 = "/usr/bin/cvc5"
 
 
 def _has_quant(t):
@@ -83,25 +31,32 @@ def _has_quant(t):
     return False
 
 
-def _cvc5(smt: str, timeout_s: int):
-    smt = smt.replace("(check-sat)", "(check-sat)\n")
-    with tempfile.NamedTemporaryFile("w", suffix=".smt2", delete=False, dir=os.environ.get("PYVC_TMP", None)) as f:
-        f.write("(set-logic ALL)\n" + smt)
-        path = f.name
+def to_smt2(pc, goal) -> str:
+    s = z3.Solver()
+    for c in pc:
+        s.add(c)
+    s.add(z3.Not(goal))
+    return s.to_smt2()
+
+
+def _run(cmd, text, timeout_s, tmpdir):
+    fd, path = tempfile.mkstemp(suffix=".smt2", dir=tmpdir)
     try:
-        p = subprocess.run(
-            ["/usr/bin/cvc5", "--strings-exp", f"--tlimit={timeout_s * 1000}", path],
-            capture_output=True,
-            text=True,
-            timeout=timeout_s + 5,
-        )
-        out = (p.stdout + p.stderr).strip()
-        first = out.split("\n")[0].strip() if out else ""
-        if first in ("sat", "unsat"):
-            return first, out
-        return "unknown", out
-    except subprocess.TimeoutExpired:
-        return "unknown", "timeout"
+        with os.fdopen(fd, "w") as f:
+            f.write(text)
+        t0 = time.time()
+        try:
+            p = subprocess.run(cmd + [path], capture_output=True, text=True, timeout=timeout_s + 3)
+            out = (p.stdout or "") + (p.stderr or "")
+        except subprocess.TimeoutExpired:
+            return "timeout", "hard timeout", time.time() - t0
+        first = ""
+        for ln in out.splitlines():
+            ln = ln.strip()
+            if ln in ("sat", "unsat", "unknown", "timeout"):
+                first = ln
+                break
+        return first or "error", out, time.time() - t0
     finally:
         try:
             os.unlink(path)
@@ -109,38 +64,92 @@ def _cvc5(smt: str, timeout_s: int):
             pass
 
 
+def _portfolio(timeout_s):
+    t = max(1, int(timeout_s))
+    return [
+        ("z3", [Z3NEW, f"-T:{t}"]),
+        ("z3/ematch", [Z3NEW, f"-T:{t}", "smt.auto_config=false", "smt.mbqi=false"]),
+        ("z3-4.8", [Z3OLD, f"-T:{t}"]),
+    ]
+
+
+def solve_text(text_full, text_qf, timeout_s, tmpdir, want_model=False):
+    """-> (verdict, backend, seconds, raw)"""
+    t0 = time.time()
+    notes = []
+    # stage 1: quantifier-free hypotheses only (sound: fewer assumptions)
+    if text_qf is not None:
+        r, out, dt = _run([Z3NEW, f"-T:{max(1, int(timeout_s) // 3)}"], text_qf, timeout_s // 3 + 1, tmpdir)
+        if r == "unsat":
+            return "unsat", "z3(qf-hyps)", time.time() - t0, None
+    for name, cmd in _portfolio(timeout_s):
+        txt = text_full + ("\n(get-model)\n" if want_model else "")
+        r, out, dt = _run(cmd, txt, timeout_s, tmpdir)
+        if r == "unsat":
+            return "unsat", name, time.time() - t0, None
+        if r == "sat":
+            return "sat", name, time.time() - t0, out[:6000]
+        notes.append(f"{name}: {r} {out.strip()[:120] if r in ('error',) else ''}")
+    if os.path.exists(CVC5):
+        r, out, dt = _run([CVC5, "--strings-exp", f"--tlimit={int(timeout_s) * 1000}"], "(set-logic ALL)\n" + text_full, timeout_s, tmpdir)
+        if r == "unsat":
+            return "unsat", "cvc5", time.time() - t0, None
+        if r == "sat":
+            return "sat", "cvc5", time.time() - t0, out[:6000]
+        notes.append(f"cvc5: {r if r != 'error' else out.strip()[:100]}")
+    return "unknown", "portfolio", time.time() - t0, "; ".join(notes)
+
+
 def discharge(obligations, probes=None, timeout_ms=10000, jobs=None):
-    """sets .verdict ('discharged'|'refuted'|'undecided'), .backend, .time, .model on every obligation"""
-    global _OBLS, _PROBES, _TIMEOUT_MS
-    _OBLS = obligations
-    _PROBES = probes or {}
-    _TIMEOUT_MS = timeout_ms
+    """sets .verdict ('discharged'|'refuted'|'undecided'), .backend, .time, .raw on every obligation"""
     n = len(obligations)
     if n == 0:
         return
-    jobs = jobs or min(16, os.cpu_count() or 1, n)
-    # trivially true goals need no solver
-    todo = []
-    for i, ob in enumerate(obligations):
-        if z3.is_true(ob.goal):
-            ob.verdict, ob.backend, ob.time = "discharged", "simplifier", 0.0
-        else:
-            todo.append(i)
-    if not todo:
-        return
-    if jobs > 1 and len(todo) > 1:
-        ctx = mp.get_context("fork")
-        with ctx.Pool(min(jobs, len(todo))) as pool:
-            results = pool.map(_solve_one, todo, chunksize=1)
-    else:
-        results = [_solve_one(i) for i in todo]
-    for i, verdict, backend, dt, probes_out, raw in results:
-        ob = obligations[i]
-        ob.backend, ob.time, ob.raw = backend, dt, raw
-        if verdict == "unsat":
-            ob.verdict = "discharged"
-        elif verdict == "sat":
-            ob.verdict = "refuted"
-            ob.model = probes_out
-        else:
-            ob.verdict = "undecided"
+    jobs = jobs or min(16, os.cpu_count() or 1)
+    timeout_s = max(1, timeout_ms // 1000)
+    tmpdir = tempfile.mkdtemp(prefix="pyvc_")
+    try:
+        work = []
+        for i, ob in enumerate(obligations):
+            if z3.is_true(ob.goal):
+                ob.verdict, ob.backend, ob.time = "discharged", "simplifier", 0.0
+                continue
+            full = to_smt2(ob.pc, ob.goal)
+            qf_pc = [c for c in ob.pc if not _has_quant(c)]
+            qf = to_smt2(qf_pc, ob.goal) if len(qf_pc) != len(ob.pc) else None
+            work.append((i, full, qf))
+        if not work:
+            return
+
+        def task(item):
+            i, full, qf = item
+            return i, solve_text(full, qf, timeout_s, tmpdir, want_model=True)
+
+        with cf.ThreadPoolExecutor(max_workers=jobs) as pool:
+            for i, (verdict, backend, dt, raw) in pool.map(task, work):
+                ob = obligations[i]
+                ob.backend, ob.time, ob.raw = backend, dt, raw
+                ob.verdict = {"unsat": "discharged", "sat": "refuted"}.get(verdict, "undecided")
+        for i, full, qf in work:
+            obligations[i].smt2_size = len(full)
+    finally:
+        shutil.rmtree(tmpdir, ignore_errors=True)
+
+
+def model_values(ob, terms: dict, timeout_ms=20000):
+    """re-solve a refuted obligation in process to evaluate `terms` in a model (used for replay only)"""
+    s = z3.Solver()
+    s.set("timeout", timeout_ms)
+    for c in ob.pc:
+        s.add(c)
+    s.add(z3.Not(ob.goal))
+    if s.check() != z3.sat:
+        return None
+    m = s.model()
+    out = {}
+    for k, t in terms.items():
+        try:
+            out[k] = m.eval(t, model_completion=True)
+        except z3.Z3Exception:
+            out[k] = None
+    return out
